@@ -160,7 +160,7 @@ SerdeRel(op, a, r) ==
 \* Integer projections of floating-point results (computed by the recorder in f64 from the native values).
 \* The model knows the exact rational inputs, so it knows which side of each threshold they are on.
 IsIntTup(x, n) == x.t = "Tup" /\ Len(x.c) = n
-ProjOps == {"slerp_proj", "nlerp_proj", "slerp_axis_proj", "look_proj", "arc_proj", "small_rot_proj", "norm_proj", "trig_big_proj", "tiny_inv_proj", "slab_proj", "scale_proj", "cross_near_proj", "mm_col_proj", "look_mag_proj", "deep_proj", "angle_near_proj", "lerp_end_proj", "dec_concat_proj", "fov_proj", "hom_proj", "near_sing_proj", "subnormal_det_proj", "tilt_rot_proj", "look2_mag_proj", "planar_far_proj", "lerp_far_proj", "pred_near_proj", "inv_vec_agree_proj", "inv_trig_proj", "forms_eq_proj", "look_near_proj", "unit_roundtrip", "normalize_native", "turn_div_exact", "full_turn_value", "euler_proj"}
+ProjOps == {"slerp_proj", "nlerp_proj", "slerp_axis_proj", "look_proj", "arc_proj", "small_rot_proj", "norm_proj", "trig_big_proj", "tiny_inv_proj", "slab_proj", "scale_proj", "cross_near_proj", "mm_col_proj", "look_mag_proj", "deep_proj", "angle_near_proj", "lerp_end_proj", "dec_concat_proj", "fov_proj", "hom_proj", "near_sing_proj", "subnormal_det_proj", "centroid_big_proj", "tilt_rot_proj", "look2_mag_proj", "planar_far_proj", "lerp_far_proj", "pred_near_proj", "inv_vec_agree_proj", "inv_trig_proj", "forms_eq_proj", "look_near_proj", "unit_roundtrip", "normalize_native", "turn_div_exact", "full_turn_value", "euler_proj"}
 \* degree of homogeneity of the operations when every vector / point / matrix / quaternion argument is multiplied by k
 \* (scalar arguments are not scaled): linear operations 1, products and quadratic forms 2, determinants n, inverses -1,
 \* directions and angles 0
@@ -268,6 +268,12 @@ ProjRel(op, k, a, r) ==
                           /\ r.c[1].c[1] = TRUE /\ r.c[2].c[1] <= 64 /\ r.c[3].c[1] <= 64
     \* C02 next to singular: determinant g det(M) by multilinearity, an inverse exists and undoes the matrix
     [] op = "near_sing_proj" -> /\ IsIntTup(r, 3) /\ Det(a[1].c) # Zero /\ r.c[1].c[1] <= 64 /\ r.c[2].c[1] = TRUE /\ r.c[3].c[1] <= 64
+    \* C12: the centroid of n equal points p is p (the sum of the position vectors, n p, divided by n), for a count n = 2^24 + 1 that
+    \* single precision cannot represent; p has integer coordinates of at most 1000, so n p is exact in double precision
+    [] op = "centroid_big_proj" ->
+         /\ IsIntTup(r, 2)
+         /\ \A i \in 1..Len(a[1].c) : a[1].c[i][2] = 1 /\ Abs(a[1].c[i][1]) <= 1000
+         /\ r.c[1].c[1] = TRUE /\ r.c[2].c[1] = 16777217
     \* C02 with a subnormal determinant: M exact monomial (one non-zero entry per column, each +-1, +-2, +-1/2; det # 0), scaled
     \* natively by a power of two so that nothing rounds: determinant exact and non-zero, an inverse exists, and it is exact
     [] op = "subnormal_det_proj" ->
